@@ -206,7 +206,26 @@ fn kx_object_with(pk: &[u8; 32], sk: &[u8; 32], peer: &[u8; 32], imported: bool)
     Ok(())
 }
 
+/// Key exchange through EVERY API layer for secret keys of special shape (all-zero, all-0xff, 1, (un)clamped patterns):
+/// every 32-byte string is a valid X25519 secret key (clamping makes 0^32 the ordinary scalar 2^254).  The key pair is
+/// built with `KeyPair::from_secret_key`; classic functions, `Session::new_*` and `KeyPair::kx_new_*_session` must all
+/// give libsodium's crypto_kx_*_session_keys.  sk = this side's secret key, peer = the other side's public key.
+fn kx_all_layers(i: &Input) -> Outcome {
+    use dryoc::kx::{KeyPair, SecretKey};
+    use dryoc::types::Bytes;
+    let (sk, peer) = (i.arr::<32>("sk"), i.arr::<32>("peer"));
+    let pk = so::scalarmult_base(&sk);
+    let kp = KeyPair::from_secret_key(SecretKey::from(sk));
+    eq("KeyPair::from_secret_key public key", &pk, kp.public_key.as_slice())?;
+    eq("KeyPair::from_secret_key secret key", &sk, kp.secret_key.as_slice())?;
+    kx_client(&Input::new().b("client_sk", &sk).b("server_pk", &peer))?;
+    kx_server(&Input::new().b("server_sk", &sk).b("client_pk", &peer))?;
+    kx_object_with(&pk, &sk, &peer, false)?;
+    kx_object_with(&pk, &sk, &peer, true)
+}
+
 pub const C05: Registry = &[
+    ("kx_all_layers_special_secret_key", kx_all_layers),
     ("scalarmult_random_point", scalarmult),
     ("scalarmult_special_point", scalarmult),
     // encodings that differ from a special encoding (base point, small-order list, p-1.., small u) only in the last
@@ -480,6 +499,21 @@ pub fn c05(ctx: &mut Ctx) -> Search {
             let mut q = noncanon;
             q[31] |= top;
             ctx.run("kx_object_imported_keypair_independent_pk", Input::new().b("pk", &q).b("sk", &sk).b("peer", &peer))?;
+        }
+    }
+    // secret keys of special shape through every kx layer, against an honest peer and a special-shape peer
+    let mut sks: Vec<[u8; 32]> = scalars.clone();
+    for (first, fill, last) in [(0u8, 0u8, 0x40u8), (0xf8, 0xff, 0x7f), (0x07, 0, 0), (0, 0, 0x80), (0xf8, 0, 0), (0xff, 0xff, 0x3f), (0x08, 0, 0)] {
+        let mut s = [fill; 32];
+        s[0] = first;
+        s[31] = last;
+        sks.push(s);
+    }
+    let honest = so::scalarmult_base(&rng2.arr::<32>());
+    for a in &sks {
+        ctx.run("kx_all_layers_special_secret_key", Input::new().b("sk", a).b("peer", &honest))?;
+        for b in sks.iter().take(if t { sks.len() } else { 3 }) {
+            ctx.run("kx_all_layers_special_secret_key", Input::new().b("sk", a).b("peer", &so::scalarmult_base(b)))?;
         }
     }
     Ok(())
